@@ -266,7 +266,8 @@ func (f *FuncCFG) mentions(n ast.Node, blk *cfg.Block, out map[string]bool, seen
 			out["param:"+v.Name()] = true
 			return true
 		}
-		// local: expand through definitions
+		// local: named, and expanded through definitions
+		out["local:"+v.Name()] = true
 		ds := f.defs[v]
 		var use []defSite
 		if len(ds) == 1 {
